@@ -113,7 +113,29 @@ func guardingCond(blk *ssa.BasicBlock) (ssa.Value, bool) {
 	return nil, false
 }
 
+// freshRegistration: v is a registration allocated by the API call: a heap allocation in
+// the current function, or a parameter whose argument at every call site is one.
+func freshRegistration(ix *ipIndex, v ssa.Value, d int) bool {
+	switch x := stripConv(v).(type) {
+	case *ssa.Alloc:
+		return x.Heap
+	case *ssa.Parameter:
+		args := ix.argFor(x)
+		if len(args) == 0 || d > 3 {
+			return false
+		}
+		for _, a := range args {
+			if !freshRegistration(ix, a, d+1) {
+				return false
+			}
+		}
+		return true
+	}
+	return false
+}
+
 func checkRegistryEdits(c *Ctx, p *Prog, R *BusRoles, rule string) {
+	ix := newIPIndex(p)
 	acc := registryAccesses(p, R)
 	byFn := map[string][]regAccess{}
 	for _, a := range acc {
@@ -135,18 +157,17 @@ func checkRegistryEdits(c *Ctx, p *Prog, R *BusRoles, rule string) {
 			continue
 		}
 		a := ups[0]
-		pos := p.Pos(a.In.Pos())
+		pos := p.Pos(a.HomeIn.Pos())
+		homeUp, _ := a.HomeIn.(*ssa.MapUpdate)
 		call, ok := stripConv(a.Val).(*ssa.Call)
 		okShape := false
-		if ok {
+		if ok && homeUp != nil {
 			if bi, isB := call.Common().Value.(*ssa.Builtin); isB && bi.Name() == "append" && len(call.Common().Args) == 2 {
-				if lk, isLk := R.isRegistryLookup(call.Common().Args[0]); isLk && sameValue(lk.Index, a.Key) {
+				if lk, isLk := R.isRegistryLookup(call.Common().Args[0]); isLk && sameValue(lk.Index, homeUp.Key) {
 					d := &derivation{}
 					deriveSlice(call.Common().Args[1], R, d, map[ssa.Value]bool{})
 					if len(d.fresh) == 1 && len(d.lookups) == 0 && len(d.other) == 0 {
-						if al, isAlloc := stripConv(d.fresh[0]).(*ssa.Alloc); isAlloc && al.Parent() == a.Fn && al.Heap {
-							okShape = true
-						}
+						okShape = freshRegistration(ix, d.fresh[0], 0)
 					}
 				}
 			}
@@ -157,12 +178,22 @@ func checkRegistryEdits(c *Ctx, p *Prog, R *BusRoles, rule string) {
 		// options are applied before the registration becomes visible
 		okOpts := true
 		nOpts := 0
-		for _, b := range a.Fn.Blocks {
-			for _, in := range b.Instrs {
-				if call, isCall := in.(*ssa.Call); isCall && isDynamicCall(call.Common()) && len(call.Common().Args) == 1 && typeName(call.Common().Args[0].Type()) == R.RegName() {
-					nOpts++
-					if reaches(a.In, in) {
-						okOpts = false
+		for _, g := range reachFuncs(p, p.Func(PkgBus, name), PkgBus) {
+			for _, b := range g.Blocks {
+				for _, in := range b.Instrs {
+					if call, isCall := in.(*ssa.Call); isCall && isDynamicCall(call.Common()) && len(call.Common().Args) == 1 && typeName(call.Common().Args[0].Type()) == R.RegName() {
+						nOpts++
+						if g == a.Home && reaches(a.HomeIn, in) {
+							okOpts = false
+						}
+						if g != a.Home && a.Home != p.Func(PkgBus, name) && g == p.Func(PkgBus, name) {
+							// options applied in the API function after the helper that inserts?
+							for _, ci := range ix.callers[a.Home] {
+								if ci.Parent() == g && reaches(ci, in) {
+									okOpts = false
+								}
+							}
+						}
 					}
 				}
 			}
@@ -187,19 +218,22 @@ func checkRegistryEdits(c *Ctx, p *Prog, R *BusRoles, rule string) {
 			c.Violate(rule, name+"/one-removal", "", fmt.Sprintf("Unsubscribe has %d registry write sites (want one)", len(ups)), nil)
 		} else {
 			a := ups[0]
-			pos := p.Pos(a.In.Pos())
+			pos := p.Pos(a.HomeIn.Pos())
 			L, idx, ok, why := removalShape(a.Val)
 			if !ok {
 				c.Violate(rule, name+"/order-preserving-removal", pos, "the list written back is not the order-preserving removal of one element ("+why+"): the relative order of the remaining registrations changes or more than one is removed", nil)
 			} else {
 				_, isLk := R.isRegistryLookup(L)
 				c.Check(isLk, rule, name+"/order-preserving-removal", pos, why+" on the looked-up list", "the removal is applied to a list other than the registry lookup")
-				cond, onTrue := guardingCond(a.In.Block())
+				cond, onTrue := guardingCond(a.HomeIn.Block())
 				okIdx := cond != nil && onTrue && condMentionsElement(cond, L, idx)
+				if !okIdx {
+					okIdx = indexFoundBySearch(idx, L, R)
+				}
 				c.Check(okIdx, rule, name+"/removes-the-matched-element", pos, "the removed index is the index whose element matched the handler", "the removed index is not the index at which the handler comparison succeeded")
 			}
-			c.Check(!reaches(a.In, a.In), rule, name+"/at-most-one-removal", pos, "no path performs the removal twice", "the removal can execute more than once per call")
-			unsubscribeReturns(c, p, R, rule, a.Fn)
+			c.Check(!reaches(a.HomeIn, a.HomeIn), rule, name+"/at-most-one-removal", pos, "no path performs the removal twice", "the removal can execute more than once per call")
+			unsubscribeReturns(c, p, R, rule, p.Func(PkgBus, "Unsubscribe"))
 		}
 	}
 	// once-removal in PublishContext: pointer identity
@@ -207,7 +241,7 @@ func checkRegistryEdits(c *Ctx, p *Prog, R *BusRoles, rule string) {
 		if a.Kind != "update" {
 			continue
 		}
-		pos := p.Pos(a.In.Pos())
+		pos := p.Pos(a.HomeIn.Pos())
 		d := &derivation{}
 		deriveSlice(a.Val, R, d, map[ssa.Value]bool{})
 		// every append in the derivation must have the removal shape, guarded by a pointer comparison
@@ -236,7 +270,8 @@ func checkRegistryEdits(c *Ctx, p *Prog, R *BusRoles, rule string) {
 					}
 					cond, onTrue := guardingCond(x.Block())
 					bo, isBo := cond.(*ssa.BinOp)
-					if !(isBo && onTrue && bo.Op == token.EQL && typeName(bo.X.Type()) == R.RegName() && typeName(bo.Y.Type()) == R.RegName() && condMentionsElement(cond, L, idx)) {
+					byEq := isBo && onTrue && bo.Op == token.EQL && typeName(bo.X.Type()) == R.RegName() && typeName(bo.Y.Type()) == R.RegName() && condMentionsElement(cond, L, idx)
+					if !byEq && !indexFoundByIdentitySearch(idx, L, R) {
 						okAll = false
 						c.Violate(rule, "PublishContext/once-removal/pointer-identity", p.Pos(x.Pos()), "once-handler retirement does not select the element by pointer identity with the claimed registration", nil)
 					}
@@ -433,4 +468,27 @@ func unsubscribeReturns(c *Ctx, p *Prog, R *BusRoles, rule string, f *ssa.Functi
 	for _, fd := range e.Findings {
 		c.Violate(rule, fd.Construct, p.Pos(fd.Pos), fd.Msg, fd.Trace)
 	}
+}
+
+// indexFoundBySearch: idx is the result of slices.IndexFunc / slices.Index over L.
+func indexFoundBySearch(idx, L ssa.Value, R *BusRoles) bool {
+	call, ok := stripConv(idx).(*ssa.Call)
+	if !ok {
+		return false
+	}
+	n := calleeName(call.Common())
+	if n != "slices.IndexFunc" && n != "slices.Index" {
+		return false
+	}
+	return stripConv(call.Common().Args[0]) == stripConv(L)
+}
+
+// indexFoundByIdentitySearch: idx = slices.Index(L, x) with x a registration pointer
+// (== on pointers is identity).
+func indexFoundByIdentitySearch(idx, L ssa.Value, R *BusRoles) bool {
+	call, ok := stripConv(idx).(*ssa.Call)
+	if !ok || calleeName(call.Common()) != "slices.Index" || len(call.Common().Args) != 2 {
+		return false
+	}
+	return stripConv(call.Common().Args[0]) == stripConv(L) && typeName(call.Common().Args[1].Type()) == R.RegName()
 }
